@@ -13,7 +13,7 @@ from __future__ import annotations
 
 import itertools
 
-from harness.common import (Ctx, DiffSpec, coq_list, coq_nat, coq_nats, coq_Z, differential, replay_findings,
+from harness.common import (Ctx, DiffSpec, coq_list, coq_nat, coq_nats, coq_Z, differential, exc_code, replay_findings,
                             sweep_differential)
 
 META = {
@@ -67,6 +67,8 @@ def wl_impl(case):
                 outs.append(w.pop())
             except IndexError:
                 outs.append(-2)
+            except Exception as e:  # noqa: BLE001  (any other escape is an observable misbehaviour)
+                outs.append(-90 - exc_code(e))
     stack = [x if isinstance(x, int) else -1 for x in w._stack]
     mp = [w._map.get(x, -1) for x in univ]
     return [outs, stack, mp]
@@ -197,6 +199,89 @@ def sd_nontrivial(case, res):
     return tuple(map(tuple, case["ops"])) if any(x not in (-1, -2, 10, []) for x in res) else None
 
 
+
+# ---------------------------------------------------------------------------- forest of live scopes
+SF_SCOPES = [0, 1]
+SF_KEYS = [0]
+SF_VALS = [None, 5]
+SF_DFS = [9]
+
+
+def sf_ops(scopes=SF_SCOPES, keys=SF_KEYS, vals=SF_VALS, dfs=SF_DFS):
+    ops = [("new", 0)]
+    ops += [("set", s, k, v) for s in scopes for k in keys for v in vals]
+    ops += [("get", s, k, d) for s in scopes for k in keys for d in dfs]
+    ops += [("getitem", s, k) for s in scopes for k in keys]
+    ops += [("contains", s, k) for s in scopes for k in keys]
+    return ops
+
+
+def coq_sf_op(o):
+    t = o[0]
+    if t == "new":
+        return f"FNew {coq_nat(o[1])}"
+    if t == "set":
+        return f"FSet {coq_nat(o[1])} {coq_nat(o[2])} {coq_pyval(o[3])}"
+    if t == "get":
+        return f"FGet {coq_nat(o[1])} {coq_nat(o[2])} {coq_pyval(o[3])}"
+    if t == "getitem":
+        return f"FGetItem {coq_nat(o[1])} {coq_nat(o[2])}"
+    return f"FContains {coq_nat(o[1])} {coq_nat(o[2])}"
+
+
+def sf_impl(case):
+    """several ScopedDict objects alive at once; scope indices are clamped to the newest scope"""
+    from xdsl.utils.scoped_dict import ScopedDict
+    scopes = [ScopedDict()]
+    outs = []
+    for o in case["ops"]:
+        t = o[0]
+        s = scopes[min(o[1], len(scopes) - 1)]
+        try:
+            if t == "new":
+                scopes.append(ScopedDict(s)); outs.append(-1)
+            elif t == "set":
+                s[o[2]] = o[3]; outs.append(-1)
+            elif t == "get":
+                outs.append(enc_pyval(s.get(o[2], o[3])))
+            elif t == "getitem":
+                try:
+                    outs.append(enc_pyval(s[o[2]]))
+                except KeyError:
+                    outs.append(-2)
+            else:
+                outs.append(11 if o[2] in s else 10)
+        except Exception as e:  # noqa: BLE001
+            outs.append(-90 - exc_code(e))
+    return outs
+
+
+def sf_holds(case, res):
+    parent, binds, exp = [None], [{}], []
+    for o in case["ops"]:
+        t = o[0]
+        i = min(o[1], len(binds) - 1)
+        if t == "new":
+            parent.append(i); binds.append({}); exp.append(-1)
+        elif t == "set":
+            binds[i][o[2]] = o[3]; exp.append(-1)
+        else:
+            found, j = None, i
+            while j is not None:
+                if o[2] in binds[j]:
+                    found = (binds[j][o[2]],)
+                    break
+                j = parent[j]
+            if t == "get":
+                exp.append(enc_pyval(found[0] if found else o[3]))
+            elif t == "getitem":
+                exp.append(enc_pyval(found[0]) if found else -2)
+            else:
+                exp.append(11 if found else 10)
+    if res != exp:
+        return False, f"lookups {res} but innermost-defining-scope (along each scope's parent chain) gives {exp}"
+    return True, ""
+
 # ---------------------------------------------------------------------------- union-find
 def uf_ops(args):
     prs = [(a, b) for a in args for b in args]
@@ -238,6 +323,8 @@ def uf_impl(case):
                 outs.append(list(u.roots()))
         except KeyError:
             outs.append(-2)
+        except Exception as e:  # noqa: BLE001
+            outs.append(-90 - exc_code(e))
     return [outs, list(u._parent), list(u._count)]
 
 
@@ -359,6 +446,16 @@ def run(ctx: Ctx):
                            coq_nats(SD_KEYS), coq_list(coq_pyval(v) for v in SD_VALS),
                            coq_list(coq_pyval(v) for v in SD_DFS), pre, n)),
         sd_impl, sd_holds, None, sd_nontrivial)
+    # several scopes alive at once (a child reads, an ancestor is assigned later, the child reads again)
+    sf_tail = 5 if thorough else 4
+    sf_pre = [("set", 0, 0, 5), ("new", 0)]
+    sweep_differential(
+        ctx, f"scoped-forest-exhaustive-prefix2-len{sf_tail}", REQ,
+        product_shards(sf_ops(), 1, sf_tail - 1, lambda ops: {"ops": sf_pre + ops}, coq_sf_op,
+                       lambda pre, n: "sf_sweep {} {} {} {} ({} ++ {}) {}%nat".format(
+                           coq_nats(SF_SCOPES), coq_nats(SF_KEYS), coq_list(coq_pyval(v) for v in SF_VALS),
+                           coq_list(coq_pyval(v) for v in SF_DFS), coq_list(coq_sf_op(o) for o in sf_pre), pre, n)),
+        sf_impl, sf_holds, None, sd_nontrivial)
     uf_args, uf_n0 = [0, 1, 2], 2          # element 2 is out of range until the first add()
     uf_pre, uf_tail = (2, 2) if thorough else (1, 2)
     sweep_differential(
@@ -380,6 +477,12 @@ def run(ctx: Ctx):
         [{"ops": random_ops(rng, sd_ops(), rng.randint(5, 50))} for _ in range(nrand)],
         sd_impl, lambda c: f"sd_case {coq_list(coq_sd_op(o) for o in c['ops'])}",
         sd_holds, None, sd_nontrivial))
+    big_sf = sf_ops(scopes=[0, 1, 2, 3], keys=[0, 1], vals=[None, 5, 7], dfs=[None, 9]) + [("new", 1), ("new", 2)]
+    differential(ctx, DiffSpec(
+        "scoped-forest-random", REQ,
+        [{"ops": random_ops(rng, big_sf, rng.randint(5, 40))} for _ in range(nrand * 2)],
+        sf_impl, lambda c: f"sf_case {coq_list(coq_sf_op(o) for o in c['ops'])}",
+        sf_holds, None, sd_nontrivial))
     cases = []
     for _ in range(nrand):
         n0 = rng.randint(0, 8)
